@@ -5,3 +5,4 @@ open Fzf.Props.C12
 #print axioms C12_quote_in_context
 #print axioms C12_fish_roundtrip
 #print axioms C12_tmux_args_roundtrip
+#print axioms C12_template_evaluates
